@@ -1,6 +1,8 @@
 import Xp.Model.C17
 import Xp.Proofs.C17Dag
 import Xp.Proofs.C17Init
+import Xp.Proofs.C17Ver
+import Xp.Proofs.C17Res
 import Xp.Gen.C17Tables
 /-
 C17 property theorems: dependency resolution.
@@ -114,6 +116,318 @@ theorem implied_eq_missing {o : Oracle} {upg : Bool} {pkgs : List Pkg} {d : Dag}
       ∀ x, x ∈ imp.map (·.pkg) ↔ (x ∈ (pkgs.flatMap (·.deps)).map (·.pkg) ∧ x ∉ pkgs.map (·.source))) :=
   ⟨(init_spec h).2.2.1, (init_spec h).2.2.2⟩
 
+/-! ### the SemVer precedence order used for "highest" / "lowest" is a total preorder -/
+
+theorem semver_order_total (a b : Ver) : a.le b = true ∨ b.le a = true := Ver.le_total a b
+
+theorem semver_order_trans (a b c : Ver) (h1 : a.le b = true) (h2 : b.le c = true) : a.le c = true :=
+  Ver.le_trans h1 h2
+
+/-- regenerated from the library in /repo's module graph on every run: the empty string is not
+a semantic version (so "no version selected", which the Go code encodes as "", is unambiguous) -/
+theorem semver_rejects_empty : Xp.Gen.c17SemverParsesEmpty = false := by decide
+
+/-! ### findDependencyVersionToInstall -/
+
+/-- A digest constraint pins exactly that digest, whatever the tags are (they are not even
+fetched); an unparsable constraint or a failing tag fetch installs nothing. -/
+theorem install_guards (o : Oracle) (con : String) (fetch : Option (List String)) :
+    (∀ dg, o.digest con = some dg → toInstall o con fetch = .ok dg) ∧
+    (o.digest con = none → o.conOk con = false → toInstall o con fetch = .error .invalidConstraint) ∧
+    (o.digest con = none → o.conOk con = true → fetch = none → toInstall o con fetch = .error .fetchTags) := by
+  refine ⟨?_, ?_, ?_⟩
+  · intro dg h; simp [toInstall, h]
+  · intro h1 h2; simp [toInstall, h1, h2]
+  · intro h1 h2 h3; simp [toInstall, h1, h2, h3]
+
+/-- For a version constraint: the selected version is a tag of the repository, is a semantic
+version, satisfies the constraint, and no tag that satisfies the constraint is higher; nothing
+is selected (`""`) iff no tag is a semantic version satisfying the constraint. Tags that are
+not semantic versions never matter. For every tag list (any order), every `sat`. -/
+theorem install_max (o : Oracle) (con : String) (tags : List String) (r : String)
+    (hempty : o.ver "" = none) (hd : o.digest con = none)
+    (h : toInstall o con (some tags) = .ok r) :
+    (r = "" ↔ ∀ t ∈ tags, (o.ver t).isSome = true → o.sat con t = false) ∧
+    (r ≠ "" → r ∈ tags ∧ o.sat con r = true ∧ ∃ v, o.ver r = some v ∧
+      ∀ t ∈ tags, ∀ w, o.ver t = some w → o.sat con t = true → w.le v = true) := by
+  unfold toInstall at h
+  rw [hd] at h
+  simp only [] at h
+  split at h
+  · cases h
+  · simp only [Except.ok.injEq] at h
+    have key := lastSat_spec (o.sat con) (sortTags (parseTags o tags)) "" (sortTags_sorted _)
+    rw [h] at key
+    have memP : ∀ v : VTag, v ∈ sortTags (parseTags o tags) ↔ v.tag ∈ tags ∧ o.ver v.tag = some v.ver :=
+      fun v => mem_sortTags.trans mem_parseTags
+    rcases key with ⟨hr, none⟩ | ⟨v, hv, hr, hs, hmax⟩
+    · refine ⟨⟨fun _ t ht hsome => ?_, fun _ => hr⟩, fun hne => absurd hr hne⟩
+      cases hver : o.ver t with
+      | none => rw [hver] at hsome; cases hsome
+      | some w => exact none ⟨t, w⟩ ((memP ⟨t, w⟩).2 ⟨ht, hver⟩)
+    · obtain ⟨hvt, hvv⟩ := (memP v).1 hv
+      have hrne : r ≠ "" := by
+        intro e
+        rw [hr] at e
+        rw [e, hempty] at hvv
+        cases hvv
+      refine ⟨⟨fun e => absurd e hrne, fun hall => ?_⟩, fun _ => ?_⟩
+      · have := hall v.tag hvt (by rw [hvv]; rfl)
+        rw [hs] at this; cases this
+      · rw [hr]
+        refine ⟨hvt, hs, v.ver, hvv, ?_⟩
+        intro t ht w hw hsat
+        exact hmax ⟨t, w⟩ ((memP ⟨t, w⟩).2 ⟨ht, hw⟩) hsat
+
+/-! ### findDependencyVersionToUpdate -/
+
+/-- findDigestToUpdate: a non-empty result means every parent constraint is that same digest;
+an empty result means no parent constraint is a digest. (Mixed digests / digest and version
+constraints are errors.) -/
+theorem update_digest (o : Oracle) (hdig : ∀ c dg, o.digest c = some dg → dg ≠ "")
+    (parents : List String) (dg : String) (h : digestToUpdate o parents = .ok dg) :
+    (dg ≠ "" → ∀ c ∈ parents, o.digest c = some dg) ∧ (dg = "" → ∀ c ∈ parents, o.digest c = none) := by
+  have := digestLoop_spec o hdig parents "" false dg h (by simp)
+  exact ⟨fun hne => (this.1 hne).2.2, fun he => (this.2 he).2⟩
+
+/-- Guards of findDependencyVersionToUpdate, in the order of the code: digest errors, pinned
+digest, fetch error, unparsable parent constraint, and the `semver.MustParse(insVer)` panic on
+an installed identifier that is not a semantic version (an observation: the property does not
+demand totality there). -/
+theorem update_guards (o : Oracle) (parents : List String) (installed : String) (down : Bool)
+    (fetch : Option (List String)) :
+    (∀ e, digestToUpdate o parents = .error e → toUpdate o parents installed down fetch = .err e) ∧
+    (∀ dg, digestToUpdate o parents = .ok dg → dg ≠ "" → toUpdate o parents installed down fetch = .ok dg) ∧
+    (toUpdate o parents installed down fetch = .panic ↔
+      digestToUpdate o parents = .ok "" ∧ fetch.isSome = true ∧ parents.all o.conOk = true ∧ o.ver installed = none) := by
+  refine ⟨?_, ?_, ?_⟩
+  · intro e h; simp [toUpdate, h]
+  · intro dg h hne; simp [toUpdate, h, hne]
+  · unfold toUpdate
+    cases hdg : digestToUpdate o parents with
+    | error e => simp
+    | ok dg =>
+      by_cases hne : dg = ""
+      · subst hne
+        cases fetch with
+        | none => simp
+        | some tags =>
+          cases hc : parents.all o.conOk with
+          | false => simp
+          | true =>
+            cases hv : o.ver installed with
+            | none => simp
+            | some cur =>
+              simp only [ne_eq, not_true_eq_false, if_false, Bool.not_true, Bool.false_eq_true]
+              split <;> simp
+      · simp [hne]
+
+/-- With upgrades enabled, no digest pinned and an installed version `cur`: the selected version
+is a tag, a semantic version, and satisfies **every** parent constraint; and either
+* it is not older than `cur`, and is the lowest such admissible tag, or
+* downgrades are enabled, no admissible tag is not-older than `cur`, and it is the highest
+  admissible (hence older) tag. -/
+theorem update_min_not_older_or_max_older (o : Oracle) (parents : List String) (installed : String)
+    (down : Bool) (tags : List String) (cur : Ver) (r : String)
+    (hdg : digestToUpdate o parents = .ok "") (hcur : o.ver installed = some cur)
+    (h : toUpdate o parents installed down (some tags) = .ok r) :
+    r ∈ tags ∧ satAll o parents r = true ∧ ∃ v, o.ver r = some v ∧
+      ((cur.le v = true ∧
+          ∀ t ∈ tags, ∀ w, o.ver t = some w → satAll o parents t = true → cur.le w = true → v.le w = true) ∨
+       (down = true ∧
+          (∀ t ∈ tags, ∀ w, o.ver t = some w → satAll o parents t = true → cur.le w = false) ∧
+          ∀ t ∈ tags, ∀ w, o.ver t = some w → satAll o parents t = true → w.le v = true)) := by
+  unfold toUpdate at h
+  rw [hdg] at h
+  simp only [ne_eq, not_true_eq_false, if_false] at h
+  split at h
+  · cases h
+  · rw [hcur] at h
+    simp only [] at h
+    have memP : ∀ v : VTag, v ∈ sortTags (parseTags o tags) ↔ v.tag ∈ tags ∧ o.ver v.tag = some v.ver :=
+      fun v => mem_sortTags.trans mem_parseTags
+    have key := pickUpdate_spec (satAll o parents) cur down (sortTags (parseTags o tags)) none (sortTags_sorted _)
+    cases hp : pickUpdate (satAll o parents) cur down (sortTags (parseTags o tags)) none with
+    | none => rw [hp] at h; cases h
+    | some x =>
+      rw [hp] at h key
+      simp only [UpdRes.ok.injEq] at h
+      subst h
+      rcases key with ⟨v, hv, e, h1, h2, hmin⟩ | ⟨hnone, ⟨hd, v, hv, e, h2, hmax⟩ | ⟨_, e⟩⟩
+      · obtain ⟨hvt, hvv⟩ := (memP v).1 hv
+        simp only [Option.some.injEq] at e
+        subst e
+        refine ⟨hvt, h2, v.ver, hvv, Or.inl ⟨h1, ?_⟩⟩
+        intro t ht w hw hs hc
+        exact hmin ⟨t, w⟩ ((memP ⟨t, w⟩).2 ⟨ht, hw⟩) hc hs
+      · obtain ⟨hvt, hvv⟩ := (memP v).1 hv
+        simp only [Option.some.injEq] at e
+        subst e
+        refine ⟨hvt, h2, v.ver, hvv, Or.inr ⟨hd, ?_, ?_⟩⟩
+        · intro t ht w hw hs
+          cases hc : cur.le w with
+          | false => rfl
+          | true =>
+            have := hnone ⟨t, w⟩ ((memP ⟨t, w⟩).2 ⟨ht, hw⟩) hc
+            rw [hs] at this; cases this
+        · intro t ht w hw hs
+          exact hmax ⟨t, w⟩ ((memP ⟨t, w⟩).2 ⟨ht, hw⟩) hs
+      · cases e
+
+/-- ... and it reports "no valid version" exactly when no tag qualifies: none is admissible and
+not older, and (unless downgrades are disabled) none is admissible at all. -/
+theorem update_none_iff (o : Oracle) (parents : List String) (installed : String)
+    (down : Bool) (tags : List String) (cur : Ver)
+    (hdg : digestToUpdate o parents = .ok "") (hcon : parents.all o.conOk = true)
+    (hcur : o.ver installed = some cur) :
+    toUpdate o parents installed down (some tags) = .err .noValidVersion ↔
+      (∀ t ∈ tags, ∀ w, o.ver t = some w → satAll o parents t = true → cur.le w = false ∧ down = false) := by
+  unfold toUpdate
+  rw [hdg]
+  simp only [ne_eq, not_true_eq_false, if_false, hcon, Bool.not_true, Bool.false_eq_true, hcur]
+  have memP : ∀ v : VTag, v ∈ sortTags (parseTags o tags) ↔ v.tag ∈ tags ∧ o.ver v.tag = some v.ver :=
+    fun v => mem_sortTags.trans mem_parseTags
+  have key := pickUpdate_spec (satAll o parents) cur down (sortTags (parseTags o tags)) none (sortTags_sorted _)
+  cases hp : pickUpdate (satAll o parents) cur down (sortTags (parseTags o tags)) none with
+  | some x =>
+    rw [hp] at key
+    simp only [reduceCtorEq, false_iff]
+    intro hall
+    rcases key with ⟨v, hv, _, h1, h2, _⟩ | ⟨_, ⟨hd, v, hv, _, h2, _⟩ | ⟨_, e⟩⟩
+    · obtain ⟨hvt, hvv⟩ := (memP v).1 hv
+      have := (hall v.tag hvt v.ver hvv h2).1
+      rw [h1] at this; cases this
+    · obtain ⟨hvt, hvv⟩ := (memP v).1 hv
+      have := (hall v.tag hvt v.ver hvv h2).2
+      rw [hd] at this; cases this
+    · cases e
+  | none =>
+    rw [hp] at key
+    simp only [true_iff]
+    intro t ht w hw hs
+    have hin := (memP ⟨t, w⟩).2 ⟨ht, hw⟩
+    rcases key with ⟨v, _, e, _⟩ | ⟨hnone, ⟨_, v, _, e, _⟩ | ⟨hcond, _⟩⟩
+    · cases e
+    · cases e
+    · refine ⟨?_, ?_⟩
+      · cases hc : cur.le w with
+        | false => rfl
+        | true =>
+          have := hnone ⟨t, w⟩ hin hc
+          rw [hs] at this; cases this
+      · rcases hcond with hdn | hno
+        · exact hdn
+        · have := hno ⟨t, w⟩ hin
+          rw [hs] at this; cases this
+
+/-! ### a broken graph stops installation -/
+
+/-- The lock reconciler writes no package (neither create nor update) and reports
+`Resolved = False` whenever the lock's dependency graph has a cycle (for every iteration
+order of the node map) or the DAG cannot be built (duplicate sources): Sort runs before, and
+independently of, any version lookup. -/
+theorem cycle_blocks_install (o : Oracle) (upg down : Bool) (lock : List Pkg) (order : List String)
+    (installed : String → Option String) (fetch : String → Option (List String))
+    (hord : ∀ n, n ∈ order ↔ (lockNb lock n).isSome = true) (hne : lockNb lock "" = none)
+    (hbroken : HasCycle (lockNb lock) ∨ ∃ e, init o upg lock = .error e) :
+    (reconcile o upg down lock order installed fetch).act = .nothing ∧
+    (reconcile o upg down lock order installed fetch).resolved = some false := by
+  unfold reconcile
+  cases hi : init o upg lock with
+  | error e => exact ⟨rfl, rfl⟩
+  | ok r =>
+    obtain ⟨d, imp⟩ := r
+    simp only []
+    have hcyc : HasCycle (lockNb lock) := by
+      rcases hbroken with h | ⟨e, h⟩
+      · exact h
+      · rw [hi] at h; cases h
+    obtain ⟨e, he⟩ := ((sort_ok_iff_acyclic hi order hord hne).1).2 hcyc
+    rw [he]
+    exact ⟨rfl, rfl⟩
+
+/-- Whatever the reconciler writes is what the two selection functions returned: a created
+package carries the (non-empty) result of findDependencyVersionToInstall for the constraint of
+the first implied dependency, an updated one the result of findDependencyVersionToUpdate for
+the installed version and the node's parent constraints; so `install_max` and
+`update_min_not_older_or_max_older` apply to every write. -/
+theorem reconcile_writes_selected (o : Oracle) (upg down : Bool) (lock : List Pkg) (order : List String)
+    (installed : String → Option String) (fetch : String → Option (List String)) :
+    match (reconcile o upg down lock order installed fetch).act with
+    | .nothing => True
+    | .create id v => ∃ con, toInstall o con (fetch id) = .ok v ∧ v ≠ ""
+    | .update id v => ∃ parents ins, upg = true ∧ installed id = some ins ∧ toUpdate o parents ins down (fetch id) = .ok v := by
+  unfold reconcile
+  cases hi : init o upg lock with
+  | error e => trivial
+  | ok r =>
+    obtain ⟨d, imp⟩ := r
+    simp only []
+    cases hs : sort d order with
+    | error e => trivial
+    | ok res =>
+      simp only []
+      cases imp with
+      | nil => trivial
+      | cons dep rest =>
+        simp only []
+        cases hinst : (if upg = true then installed dep.pkg else none) with
+        | none =>
+          simp only []
+          cases ht : toInstall o dep.con (fetch dep.pkg) with
+          | error e => trivial
+          | ok v =>
+            by_cases hv : v = ""
+            · subst hv; trivial
+            · simp only [hv, if_false]
+              exact ⟨dep.con, ht, hv⟩
+        | some ins =>
+          simp only []
+          have hu : upg = true := by
+            cases upg with
+            | true => rfl
+            | false => simp at hinst
+          subst hu
+          simp only [if_true] at hinst
+          cases ht : toUpdate o ((Option.map (fun x => x.parents) (d.get dep.pkg)).getD []) ins down (fetch dep.pkg) with
+          | err e => trivial
+          | panic => trivial
+          | ok v => exact ⟨_, ins, rfl, hinst, ht⟩
+
+/-! ### Resolve: "dependencies satisfied" is sound -/
+
+/-- PackageDependencyManager.Resolve (as repaired by fixes/D12.diff) returns no error for an
+active revision `self` only if, in the lock it leaves behind,
+* the revision is recorded with its declared dependencies,
+* every direct dependency is a lock package whose version is the pinned digest, resp. a
+  semantic version admitted by the declared constraint, and
+* every package reachable from the revision through dependency edges is a lock package
+for every well-formed lock (`LockWF`), both DAG implementations, every oracle. -/
+theorem satisfied_sound (o : Oracle) (upg : Bool) (lock : List Pkg) (self : Pkg) (wf : LockWF lock self)
+    (h : (resolve o upg lock self).err = .none) :
+    lockNb (resolve o upg lock self).lock self.source = some (self.deps.map (·.pkg)) ∧
+    (∀ e ∈ self.deps, ∃ p ∈ (resolve o upg lock self).lock, p.source = e.pkg ∧ VersionOk o e p.version) ∧
+    (∀ m, Reach (lockNb (resolve o upg lock self).lock) self.source m →
+      m ∈ (resolve o upg lock self).lock.map (·.source)) :=
+  resolve_sound o upg lock self wf h
+
+/-- D12 witness: before the repair, a revision moved to another repository that depends on its
+old location was reported satisfied although the old entry had just been removed from the
+lock (the DAG was still the one built before the removal). `resolveG false` is the model of
+the unrepaired code; the same input is in corpus/C17. -/
+def wOracle : Oracle :=
+  ⟨fun t => if t == "2.0.1" then some ⟨2, 0, 1, []⟩ else none, fun c => c == "*", fun c t => c == "*" && t == "2.0.1", fun _ => none⟩
+def wLock : List Pkg := [⟨"p0", "xpkg.io/o/a", "2.0.1", [], false⟩]
+def wSelf : Pkg := ⟨"p0", "xpkg.io/moved/p0", "1.0.0", [⟨"xpkg.io/o/a", "*"⟩], false⟩
+
+theorem satisfied_sound_fails_on_unfixed_witness :
+    LockWF wLock wSelf ∧ (resolveG false wOracle false wLock wSelf).err = .none ∧
+    ¬ (∀ e ∈ wSelf.deps, ∃ p ∈ (resolveG false wOracle false wLock wSelf).lock, p.source = e.pkg) := by
+  refine ⟨⟨by decide, by decide, by decide⟩, by decide, by decide⟩
+
+/-- ... and the repaired code reports the dependency missing on that input -/
+example : (resolve wOracle false wLock wSelf).err = .missingDirect := by decide
+
 /-! ### non-vacuity -/
 
 def o0 : Oracle := ⟨fun _ => none, fun _ => false, fun _ _ => false, fun _ => none⟩
@@ -134,5 +448,39 @@ example : (match init o0 false cyc with
 example : (match init o0 true dia with
     | .ok (d, _) => ((sort d ["c", "a", "d", "b"]).toOption, (trace d "a").toOption)
     | .error _ => (none, none)) = (some ["d", "c", "b", "a"], some ["c", "d", "b"]) := by decide
+
+/-- tags 1.0.0, 2.0.0-rc.1, 1.5.0, latest; constraint admits everything below 2.0.0 -/
+def o1 : Oracle :=
+  { ver := fun t => match t with
+      | "1.0.0" => some ⟨1, 0, 0, []⟩ | "1.5.0" => some ⟨1, 5, 0, []⟩
+      | "2.0.0-rc.1" => some ⟨2, 0, 0, [.alnum "rc", .num 1]⟩ | "2.0.0" => some ⟨2, 0, 0, []⟩
+      | _ => none
+    conOk := fun c => c == "<2.0.0" || c == ">=1.0.0"
+    sat := fun c t => (c == "<2.0.0" && (t == "1.0.0" || t == "1.5.0")) || (c == ">=1.0.0" && t != "latest")
+    digest := fun _ => none }
+
+/-- the same tags parsed and in precedence order (what `sortTags (parseTags o1 ·)` yields) -/
+def sorted1 : List VTag :=
+  [⟨"1.0.0", ⟨1, 0, 0, []⟩⟩, ⟨"1.5.0", ⟨1, 5, 0, []⟩⟩, ⟨"2.0.0-rc.1", ⟨2, 0, 0, [.alnum "rc", .num 1]⟩⟩, ⟨"2.0.0", ⟨2, 0, 0, []⟩⟩]
+
+example : ∃ r, toInstall o1 "<2.0.0" (some ["1.0.0", "2.0.0-rc.1", "latest", "1.5.0"]) = .ok r := ⟨_, rfl⟩
+example : lastSat (o1.sat "<2.0.0") sorted1 "" = "1.5.0" := by decide
+example : digestToUpdate o1 ["<2.0.0", ">=1.0.0"] = .ok "" := rfl
+-- stay on the installed version when it is admissible; move up to the lowest admissible otherwise
+example : pickUpdate (satAll o1 ["<2.0.0", ">=1.0.0"]) ⟨1, 0, 0, []⟩ false sorted1 none = some "1.0.0" := by decide
+example : pickUpdate (satAll o1 [">=1.0.0"]) ⟨1, 7, 0, []⟩ false sorted1 none = some "2.0.0-rc.1" := by decide
+-- installed 2.0.0-rc.1 violates <2.0.0: highest older one with downgrades, nothing without
+example : pickUpdate (satAll o1 ["<2.0.0"]) ⟨2, 0, 0, [.alnum "rc", .num 1]⟩ true sorted1 none = some "1.5.0" := by decide
+example : pickUpdate (satAll o1 ["<2.0.0"]) ⟨2, 0, 0, [.alnum "rc", .num 1]⟩ false sorted1 none = none := by decide
+example : toUpdate o1 [">=1.0.0"] "latest" false (some ["2.0.0"]) = .panic := by decide
+example : (⟨2, 0, 0, [.alnum "rc", .num 1]⟩ : Ver).le ⟨2, 0, 0, []⟩ = true ∧ (⟨2, 0, 0, []⟩ : Ver).le ⟨2, 0, 0, [.alnum "rc", .num 1]⟩ = false := by decide
+
+/-- a satisfied Resolve: c is in the lock at 2.0.1, b depends on it, the new revision a depends on b -/
+example : (resolve wOracle true
+    [⟨"pc", "c", "2.0.1", [], false⟩, ⟨"pb", "b", "2.0.1", [⟨"c", "*"⟩], false⟩]
+    ⟨"pa", "a", "2.0.1", [⟨"b", "*"⟩], false⟩).err = .none := by decide
+example : LockWF [⟨"pc", "c", "2.0.1", [], false⟩, ⟨"pb", "b", "2.0.1", [⟨"c", "*"⟩], false⟩]
+    ⟨"pa", "a", "2.0.1", [⟨"b", "*"⟩], false⟩ := ⟨by decide, by decide, by decide⟩
+example : (reconcile o0 false false cyc ["x", "c", "b", "a"] (fun _ => none) (fun _ => some [])).act = .nothing := by decide
 
 end Xp.C17
